@@ -313,6 +313,15 @@ class Report:
         self.say('KNOWN-FINDING: property=%s key=%s %s' % (self.prop, key, what))
 
     def write(self, level='proof'):
+        # schema hygiene: exhaustive is a boolean; counts are ints; samples a non-empty list
+        cov = self.coverage
+        if 'exhaustive' in cov and not isinstance(cov['exhaustive'], bool):
+            cov['exhaustive_scope'] = cov.pop('exhaustive')
+        for k in ('evaluations', 'distinct_nontrivial', 'obligations', 'discharged'):
+            if k in cov and not isinstance(cov[k], int):
+                cov[k] = int(cov[k])
+        if not isinstance(cov.get('samples'), list):
+            cov['samples'] = [cov.get('samples')] if cov.get('samples') is not None else []
         ev = {
             'property_id': self.prop,
             'tier': self.tier,
